@@ -41,10 +41,49 @@ def segmentSpec (src : List Nat) : String :=
     | .name a b cs => s!" 5:{a}:{b}:{cpField cs}"
   "ok" ++ String.join (ps.map f) ++ s!" 0:{src.length}:{src.length}:-"
 
+/-- `spec:segmentq <cps>`: as `spec:segment`, for texts that also contain back-ticked names: the text between two
+back-ticks is ONE name (no keyword is cut out of it), the token spans both back-ticks, its literal is the text between
+them; outside back-ticks the documented keyword/name segmentation applies.  (Meaningful on texts in which a back-tick
+pair is preceded by a keyword or the start of the text and followed by a keyword or the end, names are made of name
+characters; an unclosed back-tick is outside its domain.) -/
+def splitAtTick : List Nat → List Nat × Option (List Nat)
+  | [] => ([], none)
+  | c :: r => if c == 0x60 then ([], some r) else
+    let (a, b) := splitAtTick r
+    (c :: a, b)
+
+def shiftPiece (off : Nat) : Spec.Segment.Piece → Spec.Segment.Piece
+  | .kw ty a b => .kw ty (a + off) (b + off)
+  | .name a b cs => .name (a + off) (b + off) cs
+
+def segmentQ (fuel : Nat) (off : Nat) (s : List Nat) : List Spec.Segment.Piece :=
+  match fuel with
+  | 0 => []
+  | fuel + 1 =>
+    match splitAtTick s with
+    | (plain, none) => (Spec.Segment.segment Spec.Keywords.documented plain).map (shiftPiece off)
+    | (plain, some rest) =>
+      let head := (Spec.Segment.segment Spec.Keywords.documented plain).map (shiftPiece off)
+      let o1 := off + plain.length
+      match splitAtTick rest with
+      | (inner, none) => head ++ [.name o1 (o1 + 1 + inner.length) inner]
+      | (inner, some rest') =>
+        head ++ [.name o1 (o1 + inner.length + 2) inner] ++ segmentQ fuel (o1 + inner.length + 2) rest'
+
+def segmentQSpec (src : List Nat) : String :=
+  let ps := segmentQ (src.length + 1) 0 src
+  let f (p : Spec.Segment.Piece) : String :=
+    match p with
+    | .kw ty a b => s!" {ty}:{a}:{b}:-"
+    | .name a b cs => s!" 5:{a}:{b}:{cpField cs}"
+  "ok" ++ String.join (ps.map f) ++ s!" 0:{src.length}:{src.length}:-"
+
 def handle (op : String) (args : List String) : Option String :=
   match op, args with
   | "lex", [s] => some (lexModel (parseCps s))
   | "spec:segment", [s] => some (segmentSpec (parseCps s))
+  | "spec:segmentq", [s] => some (segmentQSpec (parseCps s))
+  | "lex2", [a, b] => some (lexModel (parseCps a) ++ " ;; " ++ lexModel (parseCps b))
   | _, _ => none
 
 end ZnVerif.Ops.Lex
